@@ -126,6 +126,8 @@ def tk_lines(ctx, L):
     add("mutual", "000000", L["tokenLen"], [("A", 0, b" B"), ("B", 0, b" A")], b"A\nz")
     add("empty", "000000", L["tokenLen"], [("A", 0, b"")], b"A A A A A A A A z")
     add("empty", "000000", L["tokenLen"], [("A", 0, b" ")], b"A " * 300 + b"z")
+    # more macro entries than the expansion budget, each after a character of the source: not an error
+    add("budget-reset", "000000", L["tokenLen"], [("A", 0, b" ")], b"A " * (L["maxMacroExpansions"] + 50) + b"z")
     add("laughs", "000000", L["tokenLen"], [("A0", 0, b"1 ")] + [("A%d" % (i + 1), 0, b"A%d A%d " % (i, i)) for i in range(24)],
         b"A24\nz")
     add("self-param", "000000", L["tokenLen"], [("M", 1, b"M(\x01\x01) ")], b"M(1) z")
